@@ -110,6 +110,7 @@ def _server_run(params, residue):
 
 
 def _client_run(params, residue):
+    import zlib
     from simnet import hostile_cli, mserver, proto, scen
     from simnet.scen import US
     rng = random.Random(params["rseed"])
@@ -121,6 +122,29 @@ def _client_run(params, residue):
 
         def hook(step, q, default, src):
             ctx["downenc"] = hs.downenc
+            if step == "RAW" and default is None and params.get("raw") and hs.raw_seen:
+                # raw UDP mode: after an intact data frame (it lingers in the buffer) comes the same frame cut short by a
+                # few bytes, a runt (the magic alone or less), a bare header, or a frame with a foreign command
+                last = hs.raw_seen[-1]
+                uid = last[3] & 15 if len(last) > 3 else 0
+                if rng.random() < params["p"]:
+                    state["n"] += 1
+                    fr = proto.make_frame("10.9.0.1", "10.9.0.2", 7000 + state["n"], rng.choice([40, 120, 300]), rng.choice(["random", "text"]), rng)
+                    z = zlib.compress(fr)
+                    full = proto.raw_frame(proto.RAW_DATA, uid, z)
+                    how = rng.randrange(5)
+                    if how == 0:
+                        short = full[:len(full) - rng.choice([1, 2, 3, 4, 4, 5, 9])]
+                    elif how == 1:
+                        short = full[:rng.choice([0, 1, 2, 3, 3, 3])]
+                    elif how == 2:
+                        short = full[:4]
+                    elif how == 3:
+                        short = full[:3] + bytes([rng.choice([0x00, 0x10, 0x30, 0xF0]) | uid]) + full[4:rng.randint(4, len(full))]
+                    else:
+                        short = full[:rng.randint(4, len(full))]
+                    return [full, short]
+                return default
             if q is None or default is None:
                 return default
             state["n"] += 1
@@ -136,11 +160,11 @@ def _client_run(params, residue):
 
         hs = mserver.HandshakeServer(scen.SERVER_IP, sim.domain, sim.password, hook=hook)
         k.add_actor(hs.ip, hs)
-        opts = ["-r"] + (["-T", params["qtype"]] if params["qtype"] else [])
+        opts = ([] if params.get("raw") else ["-r"]) + (["-T", params["qtype"]] if params["qtype"] else [])
         c = sim.client("cli0", "10.53.1.1", scen.SERVER_IP, opts)
         c.residue = (residue[1], residue[2])
         sim.run_until(lambda: sim.client_in_tunnel(c) or not c.alive(), 100 * US)
-        for i in range(6):
+        for i in range(20 if params.get("raw") else 6):
             if c.alive():
                 k.offer_tun("cli0", proto.make_frame("10.9.0.2", "10.9.0.1", i + 1, 60, "random", rng), i + 1)
                 k.run(k.now + US)
@@ -195,7 +219,7 @@ def scn(params):
             break
     out["evaluations"] = out["stats"]["residue_runs"]
     if base is not None and len(base[1]) > 10:
-        out["nontrivial"].append(repr(("system", params["side"], params.get("qtype"), len(base[1]) // 50)))
+        out["nontrivial"].append(repr(("system", params["side"], params.get("qtype"), bool(params.get("raw")), len(base[1]) // 50)))
     if params["idx"] < 2:
         out["sample"] = {"engine": "A", "side": params["side"], "outputs_per_run": len(base[1]) if base else 0, "residues": [r[0] for r in RESIDUES]}
     return out
@@ -230,7 +254,8 @@ def run(ctx):
         rng = random.Random(ctx.seed * 1213 + 12)
         n = ctx.pick(96, 6000)
         plist = [{"idx": i, "seed": ctx.seed * 100000 + i, "rseed": rng.getrandbits(32), "side": "server" if i % 2 == 0 else "client",
-                  "n": rng.randint(20, 60), "p": rng.choice([0.2, 0.5]), "qtype": rng.choice([None, "NULL", "TXT", "CNAME", "MX", "SRV"])}
+                  "n": rng.randint(20, 60), "p": rng.choice([0.2, 0.5]), "qtype": rng.choice([None, "NULL", "TXT", "CNAME", "MX", "SRV", "A"]),
+                  "raw": i % 8 == 3}
                  for i in range(n)]
         if ctx.replay and "params" in (ctx.replay.get("witness") or {}):
             plist = [ctx.replay["witness"]["params"]]
